@@ -77,6 +77,14 @@ impl<T: Read + Seek> PagedReader<T> {
             ))?;
         }
 
+        // The checksum bytes at the end of each page are not part of the data and cannot be a target
+        if offset % self.page_size >= self.page_size - CHECKSUM_SIZE {
+            Err(Error::new(
+                ErrorKind::InvalidInput,
+                format!("Offset {offset} is inside a page checksum"),
+            ))?;
+        }
+
         let pages_before = offset / self.page_size;
         self.offset = offset - pages_before * CHECKSUM_SIZE;
         Ok(self.offset)
